@@ -235,3 +235,66 @@ package promapi
 //@ func IsQueryTooExpensive [C15]
 //@   ensures result == tooExpensive(err)
 //@   safe
+
+// ---------------------------------------------------------------------------------------------
+// C14: identical questions reach a server once; concurrency stays bounded.
+// Sequential obligations under the monitor rule (A8): code between Lock and Unlock of one mutex is atomic with
+// respect to other holders; Cond.Wait releases the monitor, so every heap is arbitrary after it returns.
+
+// No double grant: the key is only inserted when no caller holds it.
+//@ func partitionLocker.lock [C14]
+//@   requires p != nil && p.s != nil
+//@   at store mapupdate assert !has(p.s, id)
+//@   ensures has(p.s, id)
+//@   safe
+//@ func partitionLocker.unlock [C14]
+//@   requires p != nil
+//@   ensures !has(p.s, id)
+//@   ensures forall k string :: k != id ==> (has(p.s, k) <==> old(has(p.s, k)))
+
+// Every enqueue of a request is bracketed by lock(k) / defer unlock(k) with the same key.
+//@ structural locked-send Prometheus.Query lock=partitionLocker.lock unlock=partitionLocker.unlock chan=queries [C14]
+//@ structural locked-send Prometheus.RangeQuery lock=partitionLocker.lock unlock=partitionLocker.unlock chan=queries [C14]
+//@ structural locked-send Prometheus.Config lock=partitionLocker.lock unlock=partitionLocker.unlock chan=queries [C14]
+//@ structural locked-send Prometheus.Flags lock=partitionLocker.lock unlock=partitionLocker.unlock chan=queries [C14]
+//@ structural locked-send Prometheus.Metadata lock=partitionLocker.lock unlock=partitionLocker.unlock chan=queries [C14]
+
+// Requests reach the server only from worker goroutines, and StartWorkers spawns exactly `concurrency` of them.
+//@ structural only-called-from querier.Run :: processJob [C14]
+//@ structural only-called-from processJob :: queryWorker [C14]
+//@ structural only-called-from queryWorker :: Prometheus.StartWorkers$1 [C14]
+//@ func Prometheus.StartWorkers [C14]
+//@   requires prom != nil
+//@   ghost spawned int
+//@   after call go set spawned = spawned + 1
+//@   loop 1 invariant w >= 1 && spawned == w - 1 && (prom.concurrency >= 0 ==> w <= prom.concurrency + 1) && (prom.concurrency < 0 ==> w == 1) && prom.concurrency == old(prom.concurrency)
+//@   ensures spawned == max(old(prom.concurrency), 0)
+
+// The cache: a hit returns the stored answer; set stores it; gc keeps exactly the unexpired, recently used entries.
+//@ func queryCache.get [C14]
+//@   requires c != nil
+//@   ensures ok <==> old(has(c.entries, key))
+//@   ensures ok ==> v == old(c.entries[key].data)
+//@   ensures forall k uint64 :: has(c.entries, k) <==> old(has(c.entries, k))
+//@ func queryCache.set [C14]
+//@   requires c != nil
+//@   ensures has(c.entries, key) && c.entries[key].data == val
+//@   ensures forall k uint64 :: k != key ==> (has(c.entries, k) <==> old(has(c.entries, k)))
+
+// A cache hit answers without contacting the server; a successful answer is stored; a failed one is not.
+//@ func processJob [C14]
+//@   requires prom != nil
+//@   ghost runs int
+//@   ghost sets int
+//@   ghost hit bool
+//@   ghost asked bool
+//@   after call Run set runs = runs + 1
+//@   after call queryCache.set set sets = sets + 1
+//@   after call queryCache.get set hit = result1
+//@   after call queryCache.get set asked = true
+//@   at call queryCache.set assert arg1 == cacheKey && result.err == nil
+//@   ensures runs <= 1
+//@   ensures hit ==> runs == 0 && sets == 0
+//@   ensures old(prom.cache) != nil ==> asked
+//@   ensures result.err != nil ==> sets == 0
+//@   ensures runs == 1 && result.err == nil ==> sets == 1 || prom.cache == nil
